@@ -1,7 +1,10 @@
 // Engine A: const operations on ST::string — searching, slicing, case mapping, replacing, splitting,
 // converting, comparing, hashing, formatting, streaming, concatenating (C04; also C18/C19 histories).
 #include "textarg.h"
+#include <string_theory/stdio>
+#include <cstdio>
 #include <functional>
+#include <sstream>
 
 namespace A {
 
@@ -148,6 +151,107 @@ bool exec_str_b(Ctx &c, const Op &op) {
             (void)r; (void)b;
         });
         settle(c, op, ex, 0);
+        return true;
+    }
+    case S_OVERLOADS: {
+        // The less-travelled overloads of the const API (char8_t and null_t forms, deprecated validation-mode spellings, 64-bit
+        // aliases, char8_t free conversions, decode-into-caller-buffer, every format argument type, the format_writer extension
+        // point).  What they *compute* belongs to other properties; here they run under the same oracles as every const call: the
+        // receiver and everything else unchanged (I4), ledger clean (I5), only the allowed exceptions, and - in C19 histories and
+        // in the enumeration - std::bad_alloc out of any of their allocations.  Values they return are temporaries of the call.
+        StrObj *x = pick_str_wf(c, op.a);
+        if (!x) { c.skipped = true; return true; }
+        unsigned grp = op.b % 10;
+        note_sig(c, op, std::string("obj=") + cl(x) + ",group=" + std::to_string(grp));
+        c.budget_bytes = x->model.size() * 64 + 256;
+        as_const(x);
+        Scalars sc; decode_utf8_strict(x->model, sc);
+        // needle: one or two whole characters of the receiver (or plain ASCII when it is empty)
+        std::string nd; { Scalars t; if (!sc.empty()) { size_t a = op.c % sc.size(); t.push_back(sc[a]); if ((op.c & 1) && a + 1 < sc.size()) t.push_back(sc[a + 1]); } enc_utf8(t, nd); }
+        if (nd.empty() || nd.find('\0') != std::string::npos) nd = (op.c & 2) ? "e" : "ab";
+        const char8_t *n8 = reinterpret_cast<const char8_t *>(nd.c_str());
+        const size_t nn = nd.size(), st0 = sc.empty() ? 0 : (op.c >> 3) % (x->model.size() + 1);
+        const ST::case_sensitivity_t cs = (op.c & 4) ? ST::case_insensitive : ST::case_sensitive;
+        std::string narrow = x->model; std::wstring wide(sc.begin(), sc.end()); std::u16string w16; enc_utf16(sc, w16); std::u32string w32 = sc;
+        std::u8string w8(reinterpret_cast<const char8_t *>(x->model.data()), x->model.size());
+        bool has_nul = x->model.find('\0') != std::string::npos;
+        bool lat_ok = true; for (char32_t ch : sc) if (ch >= 0x100) lat_ok = false;
+        unsigned allowed = 0;
+        Op o2 = op;
+        if (grp == 9) o2.fault &= ~F_ALLOC;      // sinks owned by libstdc++ / glibc: engine C's business (they swallow exceptions)
+        ExcKind ex = run_sut(c, o2, [&] {
+            const S &s = *x->p();
+            volatile ST_ssize_t r = 0; volatile bool b = false; volatile unsigned long long q = 0;      // (unsigned: sums of arbitrary parsed values must not overflow)
+            switch (grp) {
+            case 0:     // char8_t searches and comparisons
+                r = s.find(n8, cs); r = s.find(n8, nn, cs); r = s.find(st0, n8, cs); r = s.find(st0, n8, nn, cs);
+                r = s.find_last(n8, cs); r = s.find_last(n8, nn, cs); r = s.find_last(st0, n8, cs); r = s.find_last(st0, n8, nn, cs);
+                b = s.contains(n8, cs); b = s.contains(n8, nn, cs); b = s.starts_with(n8, cs); b = s.ends_with(n8, cs);
+                r = s.compare(n8, cs); r = s.compare_n(n8, nn, cs); r = s.compare_i(n8); r = s.compare_ni(n8, nn); b = (s == n8); b = (s != n8); b = (n8 == s); b = (n8 != s);
+                break;
+            case 1: {   // null_t forms, substitute accessors, buffer comparisons with plain pointers
+                b = (s == ST::null); b = (s != ST::null); b = (ST::null == s); b = (ST::null != s);
+                q = (unsigned long long)std::strlen(s.c_str("(none)")); q = (unsigned long long)std::char_traits<char8_t>::length(s.u8_str(u8"(none)"));
+                ST::char_buffer cb = s.to_utf8(); r = cb.compare_n(nd.c_str(), nn); r = cb.compare(nd.c_str()); b = (cb == ST::null); b = (ST::null != cb);
+                using namespace ST::literals; ST::char_buffer lit = u8"café literal beyond sixteen"_stbuf; r = cb.compare(lit); ST::string sl = u8"sé"_st; b = (sl == s);
+                break; }
+            case 2: {   // char8_t forms that build strings (temporaries of the call)
+                { S t = s.before_first(n8, cs); q += (unsigned long long)t.size(); } { S t = s.after_first(n8, cs); q += (unsigned long long)t.size(); }
+                { S t = s.before_last(n8, cs); q += (unsigned long long)t.size(); } { S t = s.after_last(n8, cs); q += (unsigned long long)t.size(); }
+                { S t = s.replace(n8, u8"<8>", cs); q += (unsigned long long)t.size(); } { S t = s.replace(S(nd.c_str()), u8"<8>", cs); q += (unsigned long long)t.size(); }
+                { S mine(s); S t = mine.replace(n8, S("[s]"), cs); q += (unsigned long long)t.size(); }
+                { std::vector<S> v = s.split(n8, (op.c & 8) ? ST_AUTO_SIZE : 2, cs); q += (unsigned long long)v.size(); }
+                break; }
+            case 3: {   // deprecated validation-mode spellings (substitute mode: cannot throw)
+                { ST::char_buffer t = s.to_latin_1(ST::substitute_invalid); q += (unsigned long long)t.size(); }
+                { ST::char_buffer t; s.to_buffer(t, false, ST::substitute_invalid); s.to_buffer(t, true, ST::substitute_invalid); q += (unsigned long long)t.size(); }
+                { std::string t = s.to_std_string(false, ST::substitute_invalid); s.to_std_string(t, false, ST::substitute_invalid); s.to_std_string(t, true, ST::check_validity); q += (unsigned long long)t.size(); }
+                break; }
+            case 4: {   // 64-bit aliases and the double overload of from_float
+                long long v = int_value(op.c); int base = 2 + (int)(op.c % 35);
+                { S t = S::from_int64((int64_t)v, base, op.c & 1); q += (unsigned long long)t.size(); } { S t = S::from_uint64((uint64_t)v, base, !(op.c & 1)); q += (unsigned long long)t.size(); }
+                { S t = S::from_float((double)(v % 100000) / 7.0, 'e'); q += (unsigned long long)t.size(); }
+                ST::conversion_result cr; q += (unsigned long long)s.to_int64(0); q += (unsigned long long)s.to_int64(cr, 10); q += (unsigned long long)s.to_uint64(16); q += (unsigned long long)s.to_uint64(cr, 0);
+                break; }
+            case 5: {   // char8_t free conversions
+                const char8_t *p8 = reinterpret_cast<const char8_t *>(s.c_str());
+                { auto t = ST::utf8_to_utf16(p8, s.size(), ST::check_validity); q += (unsigned long long)t.size(); } { auto t = ST::utf8_to_utf32(p8, s.size(), ST::substitute_invalid); q += (unsigned long long)t.size(); }
+                { auto t = ST::utf8_to_wchar(p8, s.size(), ST::assume_valid); q += (unsigned long long)t.size(); } { auto t = ST::utf8_to_latin_1(p8, s.size(), ST::substitute_invalid); q += (unsigned long long)t.size(); }
+                break; }
+            case 6: {   // codecs into a caller-owned array
+                S hx = ST::hex_encode(s.c_str(), s.size()), b6 = ST::base64_encode(s.c_str(), s.size());
+                std::vector<char> out(s.size() + 4);
+                q += (unsigned long long)ST::hex_decode(hx, out.data(), out.size()); q += (unsigned long long)ST::base64_decode(b6, out.data(), out.size());
+                q += (unsigned long long)ST::hex_decode(hx, nullptr, 0); q += (unsigned long long)ST::base64_decode(b6, nullptr, 0); q += (unsigned long long)ST::hex_decode(hx, out.data(), s.size() / 2);
+                { S t = ST::hex_encode(s.to_utf8()); q += (unsigned long long)t.size(); } { S t = ST::base64_encode(s.to_utf8()); q += (unsigned long long)t.size(); }
+                break; }
+            case 7: {   // every scalar format argument type
+                long long v = int_value(op.c);
+                { S t = ST::format("{}|{c}|{}|{}|{}|{}|{x}", 'a', 66, L'w', char16_t(0x20AC), char32_t(0x1F600), char8_t('8'), (signed char)-5); q += (unsigned long long)t.size(); }
+                { S t = ST::format("{}|{x}|{o}|{b}|{#x}|{+}|{08}|{_-10}", v == (-9223372036854775807LL - 1) ? 1LL : v, (unsigned long long)v, (unsigned long)op.c, (long)(v % 100000), (unsigned short)op.c, (short)-3, (unsigned char)200, (unsigned)op.c); q += (unsigned long long)t.size(); }
+                { S t = ST::format("{}/{}|{>8}|{.2f}|{}", true, false, true, 2.5f, (float)(op.c % 1000) / 8); q += (unsigned long long)t.size(); }
+                { S t = ST::format("{c}{c}{c}{}", char32_t(0x10FFFF), wchar_t(0xE9), (unsigned char)'u', s); q += (unsigned long long)t.size(); }
+                break; }
+            case 8: {   // text format arguments of every string type (contents = the receiver's text)
+                { S t = ST::format("{}|{>20}|{<20}|{}|{}", narrow, wide, w16, w32, w8); q += (unsigned long long)t.size(); }
+                { S t = ST::format("{}|{>12}|{<12}|{>3}|{}", std::string_view(narrow), std::wstring_view(wide), std::u16string_view(w16), std::u32string_view(w32), std::u8string_view(w8)); q += (unsigned long long)t.size(); }
+                if (!has_nul) { S t = ST::format("{}|{}|{}|{}|{}", w16.c_str(), w32.c_str(), w8.c_str(), wide.c_str(), narrow.c_str()); q += (unsigned long long)t.size(); }
+                { S t = ST::format("{}|{}", s.to_utf8(), s.to_utf16()); q += (unsigned long long)t.size(); } { S t = ST::format("{}|{}", s.to_utf32(), s.to_wchar()); q += (unsigned long long)t.size(); }
+                break; }
+            default: {  // the format_writer extension point and the library's own stream / FILE* sinks (thread- and call-local)
+                struct W : ST::format_writer { std::string out; explicit W(const char *f) : ST::format_writer(f) {}
+                    W &append(const char *d, size_t n = ST_AUTO_SIZE) override { out.append(d, n == ST_AUTO_SIZE ? std::strlen(d) : n); return *this; }
+                    W &append_char(char ch, size_t n = 1) override { out.append(n, ch); return *this; } };
+                { W w("[{}] [{>8}] tail"); ST::apply_format(w, s, op.c); q += (unsigned long long)w.out.size(); } { W w("no fields"); ST::apply_format(w); static_cast<ST::format_writer &>(w).append("literal text"); q += (unsigned long long)w.out.size(); }
+                { std::ostringstream os; ST::writef(os, "{}|{>10}|{x}", s, nd.c_str(), op.c); os << s; q += (unsigned long long)os.str().size(); }
+                { std::wostringstream os; ST::writef(os, "{}|{<10}", s, op.c); os << s; q += (unsigned long long)os.str().size(); }
+                { char *mem = nullptr; size_t len = 0; FILE *f = open_memstream(&mem, &len); if (f) { ST::printf(f, "{}|{>10}|{_*12}", s, op.c, op.b); std::fclose(f); q += (unsigned long long)len; std::free(mem); } }
+                break; }
+            }
+            (void)r; (void)b; (void)q;
+        });
+        (void)lat_ok;
+        settle(c, o2, ex, allowed);
         return true;
     }
     case S_COMPARE: {
